@@ -20,7 +20,8 @@ def probe_points(atcoords, rng, nper=6):
 
 def orbital_values(funcs, atcoords, coeffs, pts):
     chi = gto.eval_funcs(funcs, atcoords, pts)
-    return coeffs.T @ chi, np.abs(coeffs).T @ np.abs(chi)
+    # the scale of the tolerance is the absolute sum over primitives (cancellation inside a contraction is not hidden)
+    return coeffs.T @ chi, np.abs(coeffs).T @ gto.eval_funcs_abs(funcs, atcoords, pts)
 
 
 def compare_wfn(wfn, loaded, rng, rel_tol=1e-6):
